@@ -27,14 +27,14 @@ Inductive dtree :=
 | Node (c : crule) (out br : bool) (kids : list (option dtree)).
 
 (* conversion of a rule on its own *)
-Fixpoint alone (t : dtree) : outcome (rres query) :=
+Fixpoint alone (t : dtree) : rres query :=
   match t with
   | Leaf d out br => finish (PD d) out br (conv1 d)
   | Node c out br kids =>
       finish (PC c) out br
         (obind (cpre c) (fun _ =>
            match all_some (map (fun k => match k with
-                                         | Some t' => match alone t' with Ok rr => Some (stored rr) | _ => None end
+                                         | Some t' => stored (alone t')
                                          | None => None
                                          end) kids) with
            | Some qss => cpost c qss
@@ -42,8 +42,7 @@ Fixpoint alone (t : dtree) : outcome (rres query) :=
            end))
   end.
 
-Definition sopt (t : dtree) : option (list query) :=
-  match alone t with Ok rr => Some (stored rr) | _ => None end.
+Definition sopt (t : dtree) : option (list query) := stored (alone t).
 
 (* the dependency tree of the rule at position i; acc = trees of the rules before it *)
 Definition mk_tree (C : list rule) (i : nat) (r : rule) (acc : list dtree) : dtree :=
@@ -61,11 +60,11 @@ Definition trees (C : list rule) : list dtree := trees_from C 0 C [].
 
 (* the accounting: queries of every rule that converts, in order; one error record per rule that does not *)
 Definition exp_queries (ts : list dtree) : list query :=
-  flat_map (fun t => match alone t with Ok rr => shown rr | _ => [] end) ts.
+  flat_map (fun t => match ret (alone t) with Ok qs => qs | _ => [] end) ts.
 Fixpoint exp_errors (i : nat) (ts : list dtree) : list (nat * N) :=
   match ts with
   | [] => []
-  | t :: r => match alone t with SigmaErr e => [(i, e)] | _ => [] end ++ exp_errors (S i) r
+  | t :: r => match ret (alone t) with SigmaErr e => [(i, e)] | _ => [] end ++ exp_errors (S i) r
   end.
 
 Definition is_ok {A} (o : outcome A) : bool := match o with Ok _ => true | _ => false end.
